@@ -94,3 +94,14 @@ class NocaseDict(HashableMixin, KeyableByMixin('name'), _NocaseDict):
     def pop(self, key, default=_OMITTED):
         self._check_unnamed_key(key)
         return super().pop(key, default)
+
+    def copy(self):
+        """
+        Return a copy of the dictionary, as an object of this class (the
+        values of the dictionary are not copied).
+        """
+        result = NocaseDict()
+        # pylint: disable=protected-access
+        result._data = self._data.copy()
+        result.allow_unnamed_keys = self.allow_unnamed_keys
+        return result
